@@ -283,7 +283,7 @@ class Interp:
                     return a
             return self.apply(e, callee_of(e), args, depth)
         if k == "Closure":
-            return ("closure", e["def"])
+            return ("closure", e["def"], e, dict(env))
         return ("app", "expr:" + k, ())
 
     def apply(self, e, callee, args, depth):
@@ -304,6 +304,21 @@ class Interp:
             return ("app", "unwrap", (args[0],))
         if callee.endswith("clone::Clone::clone") or callee.endswith("::clone") or callee.endswith("ToOwned::to_owned"):
             return args[0]
+        # Option combinators with a closure argument (`a.or_else(|| b).unwrap_or_else(|| panic!(..))`, `.map(|x| ..)`)
+        if len(args) == 2 and isinstance(args[1], tuple) and args[1] and args[1][0] == "closure" and len(args[1]) == 4 and args[0][0] in ("some", "none"):
+            def call_closure(c, cargs):
+                env2 = dict(c[3])
+                for p_, a_ in zip(c[2].get("params") or [], cargs):
+                    self.bind(p_, a_, env2)
+                return self.ev(c[2]["body"], env2, depth + 1)
+            if callee.endswith("Option::<T>::or_else"):
+                return args[0] if args[0][0] == "some" else call_closure(args[1], [])
+            if callee.endswith("Option::<T>::unwrap_or_else"):
+                return args[0][1] if args[0][0] == "some" else call_closure(args[1], [])
+            if callee.endswith("Option::<T>::map"):
+                return ("some", call_closure(args[1], [args[0][1]])) if args[0][0] == "some" else ("none",)
+            if callee.endswith("Option::<T>::and_then"):
+                return call_closure(args[1], [args[0][1]]) if args[0][0] == "some" else ("none",)
         # Option → Result and the `?` desugaring (Try::branch + match on ControlFlow)
         if callee.endswith("Option::<T>::ok_or_else") or callee.endswith("Option::<T>::ok_or"):
             if args[0][0] == "some":
